@@ -315,7 +315,8 @@ Spec == Init /\ [][Next]_vars
 -----------------------------------------------------------------------------
 (* safety that must hold at every step of every recorded execution *)
 QueueBounded == Len(queue) <= cap
-AccNoDup == \A i, j \in 1..Len(acc) : i # j => acc[i] # acc[j]
+\* (as a cardinality: the pairwise form is quadratic per state and the stress traces accept thousands of items)
+AccNoDup == Cardinality(SeqSet(acc)) = Len(acc)
 
 \* acceptance: the whole trace was consumed (every action consumes exactly one event, so the
 \* diameter of the explored graph is the longest explained prefix); otherwise report the first
